@@ -752,6 +752,20 @@ func TestLateJoinFLV(t *testing.T) {
 		if !tr.WaitIdle(s, []media.CID{firstCID, jcid}, bound) {
 			evid.Violation(t, "flv-delivery-stuck", pl, "FLV consumers did not drain: %s", tr.Describe(s, []media.CID{firstCID, jcid}))
 		}
+		// the FLV converter runs on goroutines of its own: a tag it has cached may not have
+		// been broadcast yet although every consumer queue is idle (under load the gap can
+		// be long). The from-the-start consumer is owed every cached tag; give it the bound.
+		cachedTags := func() int {
+			n := 0
+			for _, ev := range in.Trace() {
+				if ev.Point == "flvpublish.cached" {
+					n++
+				}
+			}
+			return n
+		}
+		mediah.WaitFor(bound, func() bool { return first.Len() >= cachedTags() })
+		settle()
 		evid.Eval(1)
 		// linearisation: number of tags cached before the joiner's snapshot
 		m := 0
@@ -854,6 +868,10 @@ func TestLateJoinFLV(t *testing.T) {
 		for i := m; i < len(all); i++ {
 			ref = append(ref, want{same: all[i].(*flv.Tag)})
 			fc.Reference = append(fc.Reference, tagStr(all[i].(*flv.Tag)))
+		}
+		// same for the joiner: the broadcast of the last tag reaches the consumers one after the other
+		if mediah.WaitFor(bound, func() bool { return j.Len() >= len(ref) }) {
+			tr.WaitIdle(s, []media.CID{jcid}, bound)
 		}
 		got := j.Got()
 		for _, g := range got {
